@@ -1,2 +1,333 @@
+"""Engine K: Kani/CBMC contract harnesses on the real crate (unsafe code included).
+
+Harness source lives in /verif/kani/harness_*.rs and is pulled into the crate by the guarded
+`#[path]` modules (cargo feature verif-hooks).  One `cargo kani` invocation verifies a batch of
+harnesses in parallel; results are cached per harness, keyed by the contents of /repo and /verif/kani.
+"""
+import json, os, re, sys, time
+from common import *
+import registry
+
+KANI_DIR = os.path.join(VERIF, 'kani')
+
+SAFETY_C03 = re.compile(r'dereference failure|pointer|deallocat|double free|free argument|free called|memory leak|dynamically allocated memory never freed|'
+                        r'misaligned|invalid integer address|dead object|outside object bounds|NULL|uninitialized|may alias|same object', re.I)
+SAFETY_C05 = re.compile(r'unwrap\(\)|panicked|attempt to |overflow|index out of bounds|out of range|division by zero|remainder|'
+                        r'called `|explicit panic|unreachable|expect|slice index|assertion failed|capacity overflow|shift', re.I)
+UNDECIDED_PAT = re.compile(r'unwinding assertion|unsupported|not currently supported|\[vmap\] capacity', re.I)
+
+
+# ------------------------------------------------------------------ static scan of harness sources
+def _mask_strings(s):
+    return re.sub(r'"(?:\\.|[^"\\])*"', lambda m: '"' + ' ' * (len(m.group(0)) - 2) + '"', s)
+
+
+def scan_file(path):
+    """returns dict name -> dict(kind='fn'|'macro', proof=bool, attrs=str, msgs=[...], calls=set, covers=[...])"""
+    src = open(path).read()
+    m = _mask_strings(re.sub(r'//[^\n]*', lambda mm: ' ' * len(mm.group(0)), src))
+    items = {}
+    for mt in re.finditer(r'(?:\bfn\s+(\w+)|macro_rules!\s*(\w+))', m):
+        name = mt.group(1) or mt.group(2)
+        ob = m.find('{', mt.end())
+        if ob < 0:
+            continue
+        depth = 0
+        cb = ob
+        for j in range(ob, len(m)):
+            if m[j] == '{': depth += 1
+            elif m[j] == '}':
+                depth -= 1
+                if depth == 0:
+                    cb = j; break
+        body = src[ob:cb + 1]
+        mbody = m[ob:cb + 1]
+        # attributes / marker comments directly above
+        pre = src[:mt.start()]
+        above = []
+        for line in reversed(pre.split('\n')[:-1][-12:]):
+            t = line.strip()
+            if t.startswith('#[') or t.startswith('//'):
+                above.append(t)
+            elif t == '' and not above:
+                continue
+            else:
+                break
+        attrs = '\n'.join(reversed(above))
+        msgs = re.findall(r'"(\[[A-Za-z][^"]*)"', body)
+        covers = re.findall(r'cover!\s*\([^;]*?"([^"]*)"\s*\)\s*;', body, re.S)
+        calls = set(re.findall(r'\b(\w+)\s*!?\s*\(', mbody)) | set(re.findall(r'\b(\w+)::<', mbody))
+        items[name] = dict(kind='fn' if mt.group(1) else 'macro', proof='kani::proof' in attrs, attrs=attrs,
+                           msgs=[x for x in msgs if not x.startswith('[builder]') and x not in covers],
+                           covers=covers, calls=calls, line=src.count('\n', 0, mt.start()) + 1)
+    return items
+
+
+def harness_table(files):
+    items = {}
+    per_file = {}
+    for f in files:
+        it = scan_file(os.path.join(KANI_DIR, f))
+        per_file[f] = it
+        for k, v in it.items():
+            items.setdefault(k, v)
+    def closure(name, seen):
+        if name in seen or name not in items:
+            return [], []
+        seen.add(name)
+        msgs = list(items[name]['msgs']); covers = list(items[name]['covers'])
+        for c in items[name]['calls']:
+            mm, cc = closure(c, seen)
+            msgs += mm; covers += cc
+        return msgs, covers
+    table = {}
+    for f, it in per_file.items():
+        for name, v in it.items():
+            if v['proof']:
+                msgs, covers = closure(name, set())
+                table[(f, name)] = dict(msgs=sorted(set(msgs)), covers=covers, attrs=v['attrs'], line=v['line'])
+    return table
+
+
+def tags_of(msg):
+    return re.findall(r'\[(C\d\d)\.?([\w-]*)\]', msg)
+
+
+# ------------------------------------------------------------------ running
+def kani_hash():
+    return tree_hash([KANI_DIR], exts=('.rs',))
+
+
+def harness_key(unit, cfgname, full, tier_n):
+    return 'kani-%s-%s-%s-N%s-%s-%s' % (unit, cfgname, full.replace('::', '.'), tier_n, repo_hash(), kani_hash())
+
+
+def parse_output(out):
+    """terse, possibly multi-threaded output -> dict harness -> dict(text, failed[list of (desc, loc)], total, nfailed, covers_ok, covers_total, status, time)"""
+    res = {}
+    cur = {}   # thread -> harness
+    chunks = {}
+    single = None
+    for line in out.split('\n'):
+        mt = re.match(r'(?:Thread (\d+): )?Checking harness ([\w:]+)\.\.\.', line)
+        if mt:
+            th = mt.group(1) or '0'
+            cur[th] = mt.group(2)
+            chunks.setdefault(mt.group(2), [])
+            single = mt.group(2)
+            last_th = th
+            continue
+        mt = re.match(r'Thread (\d+): ?(.*)', line)
+        if mt:
+            last_th = mt.group(1)
+            if last_th in cur:
+                chunks[cur[last_th]].append(mt.group(2))
+            continue
+        if line.startswith('Manual Harness Summary') or line.startswith('Complete - '):
+            last_th = None
+            continue
+        try:
+            if last_th is not None and last_th in cur:
+                chunks[cur[last_th]].append(line)
+        except NameError:
+            pass
+    for h, lines in chunks.items():
+        text = '\n'.join(lines)
+        r = dict(text=text[-6000:], failed=[], total=None, nfailed=None, covers_ok=None, covers_total=None, status='unknown', time=None)
+        mt = re.search(r'\*\* (\d+) of (\d+) failed', text)
+        if mt:
+            r['nfailed'], r['total'] = int(mt.group(1)), int(mt.group(2))
+        mt = re.search(r'\*\* (\d+) of (\d+) cover properties satisfied', text)
+        if mt:
+            r['covers_ok'], r['covers_total'] = int(mt.group(1)), int(mt.group(2))
+        mt = re.search(r'Verification Time: ([\d.]+)s', text)
+        if mt:
+            r['time'] = float(mt.group(1))
+        for fm in re.finditer(r'Failed Checks: (.*?)\n\s*File: "([^"]*)", line (\d+), in ([^\n]*)', text):
+            r['failed'].append(dict(desc=fm.group(1).strip(), file=fm.group(2), line=int(fm.group(3)), func=fm.group(4).strip()))
+        for fm in re.finditer(r'Failed Checks: ([^\n]*)\n(?!\s*File:)', text):
+            r['failed'].append(dict(desc=fm.group(1).strip(), file='', line=0, func=''))
+        if 'VERIFICATION:- SUCCESSFUL' in text:
+            r['status'] = 'success'
+        elif 'VERIFICATION:- FAILED' in text:
+            r['status'] = 'failed'
+        elif 'CBMC timed out' in text or 'timed out' in text.lower():
+            r['status'] = 'timeout'
+        unsat_covers = re.findall(r'Unsatisfied cover[^\n]*|UNSATISFIABLE[^\n]*', text)
+        r['cover_notes'] = unsat_covers
+        res[h] = r
+    return res
+
+
+def run_batch(cfg, tier_n, fulls, jobs, timeout_s):
+    """one cargo kani invocation; returns (parsed dict, raw output, wall)"""
+    tdir = os.path.join(BUILD, 'kani', '%s-N%s' % (cfg['name'], tier_n))
+    os.makedirs(tdir, exist_ok=True)
+    cmd = ['cargo', 'kani', '--manifest-path', os.path.join(REPO, 'Cargo.toml'), '--target-dir', tdir]
+    cmd += cfg['cargo_flags']
+    cmd += ['--solver', cfg.get('solver', 'minisat'), '--output-format', 'terse', '-j', str(jobs),
+            '-Z', 'unstable-options', '--harness-timeout', '%ds' % timeout_s, '--exact']
+    cmd += cfg.get('kani_flags', [])
+    for h in fulls:
+        cmd += ['--harness', h]
+    env = {'VERIF_N': str(tier_n), 'CARGO_NET_OFFLINE': 'true'}
+    rc, out, err, wall = sh(cmd, cwd=REPO, env=env, timeout=timeout_s * (2 + len(fulls) // max(1, jobs)) + 600)
+    return parse_output(out + '\n' + err), out + '\n' + err, wall, ' '.join(cmd)
+
+
+def classify_failed(desc):
+    tg = tags_of(desc)
+    if tg:
+        return sorted(set(t[0] for t in tg)), 'tagged'
+    if desc.startswith('[builder]') or UNDECIDED_PAT.search(desc):
+        return [], 'undecided'
+    props = []
+    if SAFETY_C03.search(desc):
+        props.append('C03')
+    if SAFETY_C05.search(desc) or not props:
+        props.append('C05')
+    return props, 'safety'
+
+
+def slug(s):
+    return re.sub(r'[^A-Za-z0-9.]+', '-', s).strip('-')[:70]
+
+
+def run_units(unit_names, tier):
+    """Run (or fetch from cache) all harnesses of the given Kani units; returns dict unit -> result."""
+    t0 = time.time()
+    wanted = []   # (unit, cfgname, file, name, full, info)
+    tables = {}
+    results = {}
+    for un in unit_names:
+        u = registry.UNITS[un]
+        tab = harness_table(u['files'] + u.get('support_files', []))
+        results[un] = dict(unit=un, engine='kani', tier=tier, obligations=[], functions=u.get('functions', []), assumptions=list(u.get('assumptions', [])),
+                           negative_controls=[], status='ok', notes=[], checker_cmd='', wall_s=0.0, covers=dict(satisfied=0, total=0),
+                           harnesses=[])
+        for cfgname in u.get('configs', ['std']):
+            cfg = registry.KANI_CONFIGS[cfgname]
+            if tier == 'quick' and cfg.get('thorough_only'):
+                continue
+            for (f, name), info in sorted(tab.items()):
+                if f not in u['files']:
+                    continue
+                if tier == 'quick' and 'tier: thorough' in info['attrs']:
+                    continue
+                if cfgname != 'std' and 'configs: all' not in info['attrs'] and not u.get('all_configs'):
+                    continue
+                full = u['module'][f] + '::' + name
+                wanted.append((un, cfgname, f, name, full, info))
+    n_of = lambda un: registry.UNITS[un]['n'][tier]
+    # cache lookup
+    todo = {}
+    got = {}
+    for (un, cfgname, f, name, full, info) in wanted:
+        key = harness_key(un, cfgname, full, n_of(un))
+        c = cache_get(key)
+        if c is not None:
+            c['cache_hit'] = True
+            got[(un, cfgname, full)] = c
+        else:
+            todo.setdefault((cfgname, n_of(un)), []).append((un, f, name, full, info, key))
+    for (cfgname, n), lst in todo.items():
+        cfg = registry.KANI_CONFIGS[cfgname]
+        fulls = [x[3] for x in lst]
+        jobs = min(int(os.environ.get('VERIF_JOBS', '14')), max(1, len(fulls)))
+        tmo = max(registry.UNITS[x[0]].get('timeout', {}).get(tier, 900) for x in lst)
+        log('[kani] %s N=%s: %d harnesses, -j %d ...' % (cfgname, n, len(fulls), jobs))
+        parsed, raw, wall, cmdline = run_batch(cfg, n, fulls, jobs, tmo)
+        os.makedirs(os.path.join(BUILD, 'logs'), exist_ok=True)
+        with open(os.path.join(BUILD, 'logs', 'kani-%s-N%s-%d.log' % (cfgname, n, int(time.time()))), 'w') as fh:
+            fh.write(cmdline + '\n' + raw)
+        for (un, f, name, full, info, key) in lst:
+            r = parsed.get(full)
+            if r is None:
+                r = dict(text=raw[-3000:], failed=[], total=None, nfailed=None, covers_ok=None, covers_total=None, status='missing', time=None)
+            r['cmd'] = cmdline
+            r['cache_hit'] = False
+            r['batch_wall'] = wall
+            if r['status'] in ('success', 'failed'):
+                cache_put(key, r)
+            got[(un, cfgname, full)] = r
+    # assemble per unit
+    for (un, cfgname, f, name, full, info) in wanted:
+        u = registry.UNITS[un]
+        res = results[un]
+        r = got[(un, cfgname, full)]
+        res['checker_cmd'] = re.sub(r'( --harness \S+)+', ' --harness <each harness of the unit>', r.get('cmd', ''))
+        n = n_of(un)
+        proved = 'kind: proved' in info['attrs']
+        kind = 'proved' if proved else 'bounded'
+        bm = re.search(r'bound: ([^\n]*)', info['attrs'])
+        bound = None if proved else (bm.group(1).strip() if bm else u['bound'].replace('{N}', str(n)))
+        hid = '%s/%s%s' % (un, name, '' if cfgname == 'std' else '@' + cfgname)
+        res['harnesses'].append(dict(harness=full, config=cfgname, status=r['status'], time_s=r.get('time'), checks=r.get('total'),
+                                     cache_hit=r.get('cache_hit', False)))
+        negctl = 'negative control' in info['attrs']
+        if negctl:
+            res['negative_controls'].append(dict(name=hid, expected='fail', observed='fail' if r['status'] == 'failed' else r['status'].upper()))
+            if r['status'] == 'success':
+                res['status'] = 'undecided'
+                res['notes'].append('negative control %s verified although it must fail' % hid)
+            elif r['status'] != 'failed':
+                res['status'] = 'undecided'
+                res['notes'].append('negative control %s: %s' % (hid, r['status']))
+            continue
+        if r['status'] not in ('success', 'failed'):
+            res['status'] = 'undecided'
+            res['notes'].append('%s: %s' % (hid, r['status']))
+            for msg in info['msgs']:
+                res['obligations'].append(dict(id='%s/%s' % (hid, slug(msg)), props=sorted(set(t[0] for t in tags_of(msg))), status='undecided',
+                                               kind=kind, bound=bound, backend='kani/cbmc', time_s=0, description=msg))
+            continue
+        failed_descs = [fc['desc'] for fc in r['failed']]
+        und = [d for d in failed_descs if classify_failed(d)[1] == 'undecided']
+        if und:
+            res['status'] = 'undecided'
+            res['notes'].append('%s: %s' % (hid, '; '.join(und)[:300]))
+        if r.get('covers_total') is not None:
+            res['covers']['satisfied'] += r['covers_ok']
+            res['covers']['total'] += r['covers_total']
+            if r['covers_ok'] != r['covers_total'] and r['status'] == 'success':
+                res['status'] = 'undecided'
+                res['notes'].append('%s: only %d of %d cover properties satisfied (a contract case is unreachable: vacuity guard)' % (hid, r['covers_ok'], r['covers_total']))
+        share = (r.get('time') or 0) / max(1, len(info['msgs']) + 2)
+        # tagged contract conjuncts
+        for msg in info['msgs']:
+            tg = sorted(set(t[0] for t in tags_of(msg)))
+            if not tg:
+                continue
+            st = 'failed' if msg in failed_descs else ('undecided' if und else 'discharged')
+            res['obligations'].append(dict(id='%s/%s' % (hid, slug(msg)), props=tg, status=st, kind=kind, bound=bound, backend='kani/cbmc',
+                                           time_s=round(share, 3), description=msg, detail=[msg] if st == 'failed' else [],
+                                           text=[r['text'][-2500:]] if st == 'failed' else [], harness=full, config=cfgname))
+        # untagged safety classes owned by C03 / C05
+        safety_failed = {'C03': [], 'C05': []}
+        for fc in r['failed']:
+            props, how = classify_failed(fc['desc'])
+            if how == 'safety':
+                for p in props:
+                    safety_failed[p].append(fc)
+        for p, label in (('C03', 'memory-safety checks (pointer validity, bounds, double free, dealloc) on every path'),
+                         ('C05', 'panic-freedom checks (unwrap/expect, overflow, index, division, unreachable) on every path')):
+            if safety_failed[p]:
+                for fc in safety_failed[p]:
+                    res['obligations'].append(dict(id='%s/safety-%s-%s' % (hid, p, slug(fc['desc'])), props=[p], status='failed', kind=kind, bound=bound,
+                                                   backend='kani/cbmc', time_s=round(share, 3), description='%s: %s (%s:%s %s)' % (label, fc['desc'], fc['file'], fc['line'], fc['func']),
+                                                   detail=[fc['desc']], text=[r['text'][-2500:]], harness=full, config=cfgname))
+            else:
+                res['obligations'].append(dict(id='%s/safety-%s' % (hid, p), props=[p], status='undecided' if und else 'discharged', kind=kind, bound=bound,
+                                               backend='kani/cbmc', time_s=round(share, 3),
+                                               description='%s; %s CBMC checks in this harness' % (label, r.get('total')), harness=full, config=cfgname))
+    for un, res in results.items():
+        if not res['obligations'] and res['status'] == 'ok':
+            res['status'] = 'undecided'
+            res['notes'].append('zero obligations generated')
+        res['wall_s'] = round(time.time() - t0, 2)
+        res['solver_wall_s'] = round(sum((h.get('time_s') or 0) for h in res['harnesses']), 2)
+    return results
+
+
 def run_unit(name, unit, tier):
-    raise NotImplementedError
+    return run_units([name], tier)[name]
